@@ -22,7 +22,7 @@ use std::io::BufReader;
 use std::rc::Rc;
 
 #[derive(Debug, Clone, PartialEq)]
-enum Op {
+pub(crate) enum Op {
     Var(usize),
     Const(bool),
     Not(usize),
@@ -43,7 +43,7 @@ enum Op {
     MkChoice(usize, usize, usize),
 }
 
-const BIN: [&str; 7] = ["and", "or", "xor", "nor", "nand", "implies", "eq"];
+pub(crate) const BIN: [&str; 7] = ["and", "or", "xor", "nor", "nand", "implies", "eq"];
 
 fn op_json(op: &Op) -> Value {
     json!(format!("{:?}", op))
@@ -58,7 +58,7 @@ fn filter_of(k: u8) -> TruthTableEntry {
 }
 
 /// apply `op` in `env`, operands looked up by `get`
-fn apply(env: &BDDEnv<usize>, op: &Op, get: &dyn Fn(usize) -> D) -> (Option<D>, Option<(bool, bool)>) {
+pub(crate) fn apply(env: &BDDEnv<usize>, op: &Op, get: &dyn Fn(usize) -> D) -> (Option<D>, Option<(bool, bool)>) {
     let list = |v: &Vec<usize>| -> Vec<D> { v.iter().map(|i| get(*i)).collect() };
     let r = match op {
         Op::Var(l) => env.var(*l),
@@ -94,7 +94,7 @@ fn apply(env: &BDDEnv<usize>, op: &Op, get: &dyn Fn(usize) -> D) -> (Option<D>, 
     (Some(r), None)
 }
 
-fn operands(op: &Op) -> Vec<usize> {
+pub(crate) fn operands(op: &Op) -> Vec<usize> {
     match op {
         Op::Var(_) | Op::Const(_) => vec![],
         Op::Not(a) | Op::Model(a) | Op::Clean(a) | Op::Retain(a, _) | Op::Infer(a, _) | Op::ExistsImpl(_, a) | Op::Exists(_, a) | Op::All(_, a) => vec![*a],
